@@ -199,7 +199,61 @@ def judge_tablerow_structure(ctx: core.Ctx, case: dict[str, Any]) -> None:
     ctx.ok((case["source"],), nontrivial=n > 0)
 
 
+# ---- an interrupt that is not inside any loop of a rendered partial -------------------------------------------------------------------------
+# `render` isolates the partial: a break / continue at its top level has no loop to act on.  It is an error there (strict) or ignored
+# (tolerant); it never shortens the *caller's* loop, which still visits every item of its collection, with helpers that say so.
+INTERRUPT_PARTIALS = {
+    "brk": "{% break %}", "cnt": "{% continue %}", "brk_if": "{% if true %}{% break %}{% endif %}", "cnt_case": "{% case 1 %}{% when 1 %}{% continue %}{% endcase %}",
+    "brk_after_own_loop": "{% for q in (1..2) %}{% break %}{% endfor %}{% break %}", "own_loop_only": "{% for q in (1..3) %}{% if q == 2 %}{% break %}{% endif %}{% endfor %}",
+    "brk_nested_render": "{% render 'brk' %}", "brk_in_for_render": "{% for q in (1..2) %}{% render 'brk' %}{% endfor %}",
+}
+_interrupt_envs: dict[str, Any] = {}
+
+
+def interrupt_partial_cases():
+    callers = {
+        "for": ("{% for i in (1..4) %}<{{ i }}/{{ forloop.length }}>{% render 'P' %}{% endfor %}", [f"<{i}/4>" for i in range(1, 5)]),
+        "for-var": ("{% assign xs = 'a,b,c' | split: ',' %}{% for i in xs %}<{{ i }}/{{ forloop.length }}>{% render 'P' %}{% endfor %}", ["<a/3>", "<b/3>", "<c/3>"]),
+        "tablerow": ("{% tablerow i in (1..3) cols: 2 %}<{{ i }}/{{ tablerowloop.length }}>{% render 'P' %}{% endtablerow %}", ["<1/3>", "<2/3>", "<3/3>"]),
+        "for-for": ("{% for o in (1..2) %}{% for i in (1..2) %}<{{ o }}{{ i }}/{{ forloop.length }}>{% render 'P' %}{% endfor %}{% endfor %}", ["<11/2>", "<12/2>", "<21/2>", "<22/2>"]),
+        "render-for": ("{% for i in (1..3) %}<{{ i }}/3>{% render 'P' for (1..2) as z %}{% endfor %}", ["<1/3>", "<2/3>", "<3/3>"]),
+        "for-if": ("{% for i in (1..3) %}{% if true %}<{{ i }}/3>{% render 'P' %}{% endif %}{% endfor %}", ["<1/3>", "<2/3>", "<3/3>"]),
+    }
+    for cname, (src, visits) in callers.items():
+        for pname in INTERRUPT_PARTIALS:
+            for mode in ("strict", "lax", "warn"):
+                for is_async in (False, True):
+                    yield {"kind": "interrupt-partial", "source": src.replace("'P'", f"'{pname}'") + "[end]", "visits": visits, "mode": mode, "async": is_async, "mech": f"{cname}:{pname}"}
+
+
+def judge_interrupt_partial(ctx: core.Ctx, case: dict[str, Any]) -> None:
+    mode = case["mode"]
+    if mode not in _interrupt_envs:
+        from liquid import DictLoader
+
+        _interrupt_envs[mode] = drv.make_env({"mode": mode}, loader=DictLoader(dict(INTERRUPT_PARTIALS)))
+    with drv.Warnings():
+        o = drv.parse_and_render(_interrupt_envs[mode], case["source"], {}, use_async=case.get("async", False))
+    ctx.count("caller_loops_around_a_partial_with_a_stray_interrupt")
+    ctx.evaluations += 1
+    if not o.ok:
+        if o.is_liquid_error and mode == "strict":
+            ctx.ok((case["source"], mode, "refused"), nontrivial=True)
+            return
+        ctx.violation(f"interrupt-in-partial:raises-{o.err_class}:{mode}", f"{case['source']!r:.300} ({mode}) raised {o.err_class}")
+        return
+    seen = re.findall(r"<[^<>/ ]*/\d>", o.value)
+    if seen != case["visits"] or not o.value.endswith("[end]"):
+        ctx.violation(f"interrupt-in-partial:caller-loop-visits-differ:{case['mech'].split(':')[0]}:{'async' if case.get('async') else 'sync'}",
+                      f"{case['source']!r:.300} ({mode}, partial {INTERRUPT_PARTIALS[case['mech'].split(':')[1]]!r}) visited {seen}, its collection has {case['visits']}; output {o.value!r:.200}")
+        return
+    ctx.ok((case["source"], mode), nontrivial=True)
+
+
 def judge(ctx: core.Ctx, case: dict[str, Any]) -> None:
+    if case.get("kind") == "interrupt-partial":
+        judge_interrupt_partial(ctx, case)
+        return
     if case.get("kind") == "tablerow-structure":
         judge_tablerow_structure(ctx, case)
         return
@@ -358,7 +412,7 @@ def gen_nest(rng) -> dict[str, Any]:
 
 
 def cases(ctx: core.Ctx):
-    for gi, c in enumerate(itertools.chain(abandoned_loop_cases(), tablerow_structure_cases())):
+    for gi, c in enumerate(itertools.chain(abandoned_loop_cases(), tablerow_structure_cases(), interrupt_partial_cases())):
         if gi % ctx.nshards == ctx.shard:
             yield c
     rng = ctx.rng("cases")
